@@ -11,7 +11,7 @@ from harness import common as C
 META = {
     "id": "C08",
     "technique": "Coq proof (Python's binder vs the per-handler lookup table of parser.py, for all call shapes: keyword-order lemma + vm_compute over the finite set of canonical shapes; signatures regenerated from inspect.signature of the host classes) + exhaustive extracted-model correspondence with the real parse() IR and with the real inspect.signature(...).bind, + binding oracle on the real parser",
-    "level_text": "Theorems C08_* (coq/Props/C08.v) are proved for every call shape (any number of positionals, any keyword list in any order) about a Gallina model of Python's binder and of the _extract_call_argument lookup pattern of every constructor/method/Core-helper handler; signatures are regenerated from the host classes on every run; the hand-written lookup table is run against the real parser on every call shape Python accepts (all positional/keyword splits, all subsets of omitted defaults, keyword permutations) and Python's binder model against inspect.signature(...).bind. Two rows are refuted with witnesses (RGBLed.on keywords, LCD i2c+parallel pins) and carry explicit guards.",
+    "level_text": "Theorems C08_* (coq/Props/C08.v) are proved for every call shape (any number of positionals, any keyword list in any order) about a Gallina model of Python's binder and of the _extract_call_argument lookup pattern of every constructor/method/Core-helper handler; signatures are regenerated from the host classes on every run; the hand-written lookup table is run against the real parser on every call shape Python accepts (all positional/keyword splits, all subsets of omitted defaults, keyword permutations) and Python's binder model against inspect.signature(...).bind. One row is refuted with a witness (LCD i2c+parallel pins) and carries an explicit guard; RGBLed.on, refuted until its repair (fix: RGBLed.on() honours red/green/blue passed by keyword), is now proved to bind every accepted call like Python (C08_RGBLed_on_binds) and its old witness is replayed as a regression on every run.",
     "level_note": "Trusted: Coq kernel, translator harness/gen/signatures.py, extraction (ExtrOcamlBasic), OCaml driver, harness/impl/c08_impl.py (script templates, IR-field/parameter table), CPython inspect.signature(...).bind as 'what Python would bind'. The theorems are about the model; the exhaustive correspondence bounds its distance from parser.py on the calls Python accepts. Argument values are fixed distinct literals per parameter: value-dependent behaviour of a handler is not explored.",
     "design_ref": "DESIGN.md section 4 C08",
 }
@@ -221,9 +221,15 @@ def load_findings(ctx):
     items = {f["id"]: f for f in ctx.findings}
     p = C.VERIF / "known_findings.d" / "C08.json"
     if p.exists():
+        # the work package's own file is the source of the merged one: it wins (a merged file that was not
+        # re-assembled yet must not keep suppressing an entry that has meanwhile become kind=fixed)
         for f in json.loads(p.read_text()):
-            items.setdefault(f["id"], f)
+            items[f["id"]] = f
     return list(items.values())
+
+
+def witness_cases(f):
+    return [f["witness"]["case"]] + [m["case"] for m in f["witness"].get("more", [])]
 
 
 def covered_by(findings, case):
@@ -357,10 +363,9 @@ def run(ctx: C.Ctx):
     self_check_literals(rows)
 
     # ---------------- table summary of the model vs the implementation-side row table
-    flag = None
     model_guarded = set()
     if ctx.exe:
-        summary, flag = ctx.model([[3]])[0]
+        (summary,) = ctx.model([[3]])[0]
         m_rows = {C.wstr(e[0]): [C.wstr(p) for p in e[2]] for e in summary if e[1] == 1}
         m_host = {C.wstr(e[0]) for e in summary if e[1] == 0}
         model_guarded = {C.wstr(e[0]) for e in summary if e[3] == 1}
@@ -370,6 +375,25 @@ def run(ctx: C.Ctx):
                          {"only_model": sorted(set(m_rows) - set(i_rows)), "host_only_model": sorted(m_host)},
                          {"only_impl": sorted(set(i_rows) - set(m_rows)), "host_only_impl": sorted(info["host_only"]),
                           "device_params_differ": sorted(n for n in set(m_rows) & set(i_rows) if m_rows[n] != i_rows[n])})
+
+    # ---------------- repaired findings (kind=fixed): they suppress nothing.  Their witnesses are replayed first,
+    # so that if the defect ever returns the first replay file is the recorded witness itself (same failure key
+    # as the generated cases of the row, which now cover the formerly excluded shape class).
+    n_fixed_replayed = 0
+    for f in findings:
+        if f.get("kind") != "fixed":
+            continue
+        wcases = [c for c in witness_cases(f) if c["row"] in rows]
+        rs = C.run_impl("c08_impl.py", {"op": "run", "cases": wcases})
+        for c, r in zip(wcases, rs):
+            n_fixed_replayed += 1
+            row = rows[c["row"]]
+            v, detail = verdict(c, row, r)
+            if v in ("differs", "dropped"):
+                ctx.fail(f"{c['row']}: the recorded witness of repaired defect {f['id']} fails again ({f.get('fixed', f['what'])}): {r['script'].splitlines()[-1]}",
+                         c, {"python_binds": {p: fmt_slot(s) for p, s in python_binding(c, row, r).items()}},
+                         {"differences": detail, "ir_fields": r.get("fields"), "script": r["script"], "shape": shape_class(c),
+                          "finding": f["id"], "fixed_by": f.get("commit")}, key=("differs:" if v == "differs" else "dropped:") + c["row"])
 
     # ---------------- every call shape Python accepts: canonical keyword order + permutations
     cases, origin = [], []
@@ -501,12 +525,12 @@ def run(ctx: C.Ctx):
     # ---------------- per row: does the real parser agree with Python on every accepted shape?
     stale = sorted(n for n in model_guarded if row_real_agrees.get(n))
     for n in stale:
-        hint = " - set rgb_on_keyword_fix_landed := true" if n == "RGBLed.on" else " - drop its entry in [guards] and fix the row"
+        hint = " - drop its entry in [guards] and fix the row"
         ctx.tie_broken.insert(0, {"what": f"row {n}: the real parser now agrees with Python on every accepted call shape; the guarded row in coq/Lang/Bind.v is stale{hint} (and mark the finding fixed)",
                                   "case": None, "model": "guarded (disagrees with Python)", "impl": "agrees with Python"})
     dist["rows_where_real_parser_disagrees_with_python"] = sorted(n for n, ok in row_real_agrees.items() if not ok)
     dist["rows_guarded_in_model"] = sorted(model_guarded)
-    dist["rgb_on_keyword_fix_landed_flag"] = flag
+    dist["fixed_witnesses_replayed"] = n_fixed_replayed
     dist["rows_with_unobserved_parameters"] = {n: [p[0] for p in r["sig"] if p[0] not in r["device_params"]]
                                                 for n, r in rows.items() if any(p[0] not in r["device_params"] for p in r["sig"])}
 
@@ -514,7 +538,7 @@ def run(ctx: C.Ctx):
     for f in findings:
         if f.get("kind") != "finding":
             continue
-        wcases = [f["witness"]["case"]] + [m["case"] for m in f["witness"].get("more", [])]
+        wcases = witness_cases(f)
         rs = C.run_impl("c08_impl.py", {"op": "run", "cases": wcases})
         still = [verdict(c, rows[c["row"]], r)[0] in ("differs", "dropped") for c, r in zip(wcases, rs)]
         if any(still):
@@ -530,7 +554,7 @@ def run(ctx: C.Ctx):
         "samples": samples,
         "distribution": dist,
         "exhaustive": True,
-        "guard": "call shapes not covered by a listed finding's shape class: RGBLed.on with a colour passed by keyword; LCD(...) with i2c_addr together with a parallel pin (guard_of in coq/Lang/Bind.v, cross-checked against known_findings guard_spec on every case)",
+        "guard": "call shapes not covered by a listed finding's (kind=finding) shape class: LCD(...) with i2c_addr together with a parallel pin (guard_of in coq/Lang/Bind.v, cross-checked against known_findings guard_spec on every case); RGBLed.on with a colour passed by keyword is INSIDE the guard since its repair (kind=fixed suppresses nothing; its witnesses are replayed first and fail as VIOLATION if the defect returns)",
         "unmodelled": [
             "*args / **kwargs call syntax",
             "calls Python itself rejects (the transpiler may accept more than Python; only Python's binder model sees them)",
